@@ -174,6 +174,29 @@ def cases(rng, tier):
     for i in range(60):
         cs = [rnd_val(rng, 100) for _ in range(rng.choice([5, 6, 8]))]
         yield ("poly extrema %s" % hexcsv(cs), "extrema-high")
+    # the closed forms for at most three significant coefficients against their binary32 model, bit for bit (every
+    # operation involved, sqrtf included, is correctly rounded): random and aimed coefficient vectors, right-hand
+    # sides in and around the range, leading coefficients that vanish or are denormal-small
+    for i in range(n // 2):
+        deg = rng.choice([0, 1, 1, 2, 2, 2, 2])
+        mag = rng.choice([1, 10, 1000])
+        cs = [rnd_val(rng, mag) for _ in range(deg + 1)]
+        r = rng.random()
+        if deg == 2 and r < 0.15:
+            cs[1] = 0.0
+        elif deg == 2 and r < 0.3:
+            a = rnd_val(rng, mag) or 1.0
+            rr = rng.choice([0.25, 0.5, 0.75, 1.0, 3.0])
+            cs = [f32(a * rr * rr), f32(-2 * a * rr), f32(a)]           # double root (discriminant 0 or rounding noise)
+        elif r < 0.36:
+            cs.append(rng.choice([0.0, 1e-39, -1e-40]))                      # an insignificant (zero or denormal) leading coefficient
+        elif deg == 2 and r < 0.45:
+            cs[2] = f32(cs[2] * 1e-6)                                        # 4ac tiny next to b^2
+        vals = [sum(c * (t / 8.0) ** j for j, c in enumerate(cs)) for t in range(9)]
+        lo, hi = min(vals), max(vals)
+        span = max(hi - lo, 1e-3 * mag)
+        for y in (0.0, f32(rng.uniform(lo - span, hi + span)), f32(cs[0])):
+            yield ("poly solve32 %s %s" % (hexcsv(cs), fhex(y)), "solve32-deg%d" % deg)
     # three real roots a few hundredths apart (more than four tolerances): a (x - r + s)(x - r)(x - r - s), y = 0 and
     # right-hand sides between the local extrema.  The discriminant of the depressed cubic is -s^6 / 27 whatever a is.
     yield ("poly solve 00000000,40495c40,4315d497,c43ec6cb 00000000", "clustered-roots")       # found by the thorough tier
@@ -348,6 +371,18 @@ def compare(case, om, oi):
             if near_solution(r):
                 return None
             return "touches: impl root %s is not a solution in [0,1]; certified leftmost root in [%s, %s]" % (None if r is None else float(r), float(a), float(b))
+        return None
+    if k == "solve32":
+        if om == "cubic":
+            return None
+        fi = oi.split(":")
+        fm = om[8:].split(":")
+        if fi[0] != "solve=0":
+            return "solve failed: %s" % oi
+        ri = [frac_of_bits(int(x, 16)) for x in fi[2:]]
+        rm = [parse_q(x) for x in fm[1:]]
+        if int(fi[1]) != int(fm[0]) or ri != rm:
+            return "binary32 model of the closed forms: roots %s, implementation %s" % ([float(x) for x in rm], [None if x is None else float(x) for x in ri])
         return None
     if k == "touchend":
         f = oi.split(" ")
